@@ -71,7 +71,7 @@ impl It64 for Borrowed {
         self.0.rfold((0u64, FNV_BASIS), |(n, h), v| (n + 1, fnv_step(h, v)))
     }
     fn exact_len(&self) -> Option<usize> {
-        None // `treemap::Iter` is not an ExactSizeIterator
+        Some(self.0.len()) // `ExactSizeIterator for treemap::Iter` (iter.rs:305, 64-bit targets): `size_hint().0`
     }
 }
 
@@ -328,6 +328,43 @@ pub fn handle(st: &mut State, toks: &[&str]) -> HResult {
             let vs: Vec<u64> = nats(vs)?;
             st.tm[slot('t', d)?] = Some(vs.iter().collect());
             Some("ok".to_string())
+        }
+        // ---- trait glue that only delegates (From<[u64; N]>, FromIterator<(u32, RoaringBitmap)>, IntoIterator for &RoaringTreemap)
+        ["tfrom_arr", d, vs @ ..] => {
+            let vs: Vec<u64> = nats(vs)?;
+            let t = match vs.len() {
+                0 => RoaringTreemap::from([0u64; 0]),
+                1 => RoaringTreemap::from([vs[0]]),
+                2 => RoaringTreemap::from([vs[0], vs[1]]),
+                3 => RoaringTreemap::from([vs[0], vs[1], vs[2]]),
+                4 => RoaringTreemap::from([vs[0], vs[1], vs[2], vs[3]]),
+                _ => return None,
+            };
+            st.tm[slot('t', d)?] = Some(t);
+            ok()
+        }
+        ["tcollect_bitmaps", d, items @ ..] => {
+            let i = slot('t', d)?;
+            if items.len() % 2 != 0 {
+                return None;
+            }
+            let mut v: Vec<(u32, RoaringBitmap)> = Vec::new();
+            for kv in items.chunks(2) {
+                let k: u32 = kv[0].parse().ok()?;
+                let b = st.bm[slot('b', kv[1])?].as_ref()?.clone();
+                v.push((k, b));
+            }
+            st.tm[i] = Some(v.into_iter().collect::<RoaringTreemap>());
+            ok()
+        }
+        ["tfor_ref", d] => {
+            let x = st.tm[slot('t', d)?].as_ref()?;
+            let (mut n, mut h) = (0u64, FNV_BASIS);
+            for v in x {
+                n += 1;
+                h = fnv_step(h, v);
+            }
+            Some(format!("n={} h={:016x}", n, h))
         }
         ["jdrain_rev", k] => {
             let it = j!(k);
